@@ -18,6 +18,10 @@ import (
 // Root of the verification tree.
 var Root = envOr("VERIF_ROOT", "/verif")
 
+// OutRoot is where evidence and replay artefacts are written (VERIF_OUT; defaults to Root). Self-tests that run the
+// checks against deliberately broken trees point it elsewhere so that the committed evidence describes /repo only.
+var OutRoot = envOr("VERIF_OUT", Root)
+
 func envOr(k, d string) string {
 	if v := os.Getenv(k); v != "" {
 		return v
@@ -159,7 +163,37 @@ func (r *Report) Keys() []string {
 }
 
 // Finish writes the evidence file, prints KNOWN-FINDING / VIOLATION lines and returns the exit code.
+// replayKey / replayFile: "replay by re-running" mode for checks whose enumeration is complete and deterministic
+// (the product checks): the whole check is run again and the answer is whether the recorded key is still produced.
+var replayKey, replayFile string
+
+// ReplayByRerun switches the report into replay mode for the violation stored in file.
+func ReplayByRerun(file string) error {
+	b, err := os.ReadFile(file)
+	if err != nil {
+		return err
+	}
+	var v struct {
+		Key string `json:"key"`
+	}
+	if err := json.Unmarshal(b, &v); err != nil || v.Key == "" {
+		return fmt.Errorf("%s: not a violation artefact", file)
+	}
+	replayKey, replayFile = v.Key, file
+	return nil
+}
+
 func (r *Report) Finish() int {
+	if replayKey != "" {
+		// neither the evidence file nor the stored artefacts are rewritten in replay mode
+		if v, ok := r.viol[replayKey]; ok {
+			fmt.Printf("replay (full re-run): %s reproduced (%d occurrences)\n  %s\n", replayKey, r.violCount[replayKey], v.What)
+			fmt.Printf("VIOLATION property=%s replay=%s\n", r.Property, replayFile)
+			return 1
+		}
+		fmt.Printf("replay (full re-run): %s did not reproduce on the current tree\n", replayKey)
+		return 0
+	}
 	known := map[string]Finding{}
 	for _, f := range r.findings {
 		if f.Property == r.Property && f.Status == "known" {
@@ -177,7 +211,7 @@ func (r *Report) Finish() int {
 			continue
 		}
 		nviol++
-		dir := filepath.Join(Root, "replays")
+		dir := filepath.Join(OutRoot, "replays")
 		os.MkdirAll(dir, 0o755)
 		path := filepath.Join(dir, fmt.Sprintf("%s-%s.json", r.Property, sanitize(k)))
 		b, _ := json.MarshalIndent(v, "", " ")
@@ -203,8 +237,8 @@ func (r *Report) Finish() int {
 		"violations":  nviol,
 	}
 	b, _ := json.MarshalIndent(ev, "", " ")
-	os.MkdirAll(filepath.Join(Root, "evidence"), 0o755)
-	if err := os.WriteFile(filepath.Join(Root, "evidence", r.Property+".json"), b, 0o644); err != nil {
+	os.MkdirAll(filepath.Join(OutRoot, "evidence"), 0o755)
+	if err := os.WriteFile(filepath.Join(OutRoot, "evidence", r.Property+".json"), b, 0o644); err != nil {
 		fmt.Fprintln(os.Stderr, "cannot write evidence:", err)
 		return 2
 	}
